@@ -88,6 +88,11 @@ package breaker
 //@   opaque Report, ProcessName, Pid, Sprintf
 //@   ensures [forwards] calls(lt.internalThrottle.doReq) == 1 && arg(lt.internalThrottle.doReq, 0) == req && arg(lt.internalThrottle.doReq, 1) == fallback
 //@   ensures [result] result == ret(lt.internalThrottle.doReq)
+// a panic of the request (re-raised by the inner breaker after it was counted) passes through the logging wrapper to
+// the caller, whatever its value: the wrapper never returns normally from a call that panicked
+//@   may-panic doReq
+//@   replay-for panic-passes-through breaker_wrapper_panic
+//@   ensures [panic-passes-through] !panicked(lt.internalThrottle.doReq)
 
 //@ func defaultAcceptable
 //@   prop C01
